@@ -10,6 +10,7 @@ import Driver.VP8
 import Driver.AnimEnc
 import Driver.Kernels
 import Driver.Mux
+import Driver.VP8Recon
 /-
   webpdrv — line protocol: one operation per input line (`op arg arg …`), one canonical
   output line per operation.  Unknown or malformed operations answer `bad-op` (never a default).
@@ -26,7 +27,8 @@ def dispatch (line : String) : String :=
            <|> Driver.Import.handle op args
            <|> Driver.VP8.handle op args
            <|> Driver.AnimEnc.handle op args
-           <|> Driver.Kernels.handle op args <|> Driver.Mux.handle op args) with
+           <|> Driver.Kernels.handle op args <|> Driver.Mux.handle op args
+           <|> Driver.VP8Recon.handle op args) with
     | some r => r
     | none => "bad-op"
 
